@@ -49,6 +49,14 @@ type State struct {
 	globals map[string]string                   // values stored to package-level variables on this path
 	lobj    map[ssa.Value]string                // non-escaping local struct variables kept as value terms
 	callHeaps map[string]map[string]string      // "callee#k" -> heaps right after that call returned
+	closures  map[string]*ClosureInfo           // Fn term -> function and captured values
+}
+
+// ClosureInfo is a function value created by MakeClosure on this path.
+type ClosureInfo struct {
+	Fn       *ssa.Function
+	Bindings []string
+	Types    []types.Type
 }
 
 // LocalArr is the content of an array allocated for a composite literal or a variadic call.
@@ -110,6 +118,10 @@ func (s *State) clone() *State {
 	n.globals = map[string]string{}
 	for k, v := range s.globals {
 		n.globals[k] = v
+	}
+	n.closures = map[string]*ClosureInfo{}
+	for k, v := range s.closures {
+		n.closures[k] = v
 	}
 	n.callHeaps = map[string]map[string]string{}
 	for k, v := range s.callHeaps {
@@ -207,6 +219,8 @@ type Exec struct {
 	applied     map[string]int  // contracts applied at call sites -> count
 	visits      int             // executed blocks (guards against runaway unrolling)
 	prog        *Program
+	staticRecv  types.Type      // receiver type of a statically dispatched interface call being applied
+	extraUses   []string        // preludes needed by box facts applied during the execution
 	autoGlobals map[string]bool // package-level pointer variables named in contracts by their engine symbol
 	watches     [][2]string // (source text, SMT term over the entry state) evaluated in counterexamples
 }
@@ -707,6 +721,9 @@ func (e *Exec) Run() {
 		name := "fv_" + fv.Name()
 		e.decls = append(e.decls, fmt.Sprintf("(declare-const %s %s)", name, e.sorts.SortOf(fv.Type())))
 		st.vals[fv] = name
+		if _, isPtr := fv.Type().Underlying().(*types.Pointer); isPtr { // a captured variable's cell exists
+			st.assume = append(st.assume, fmt.Sprintf("(and (< 0 %s) (< %s nextRef0))", name, name))
+		}
 	}
 	for _, p := range e.fn.Params {
 		srt := e.sorts.SortOf(p.Type())
@@ -735,6 +752,10 @@ func (e *Exec) wellFormed(term string, t types.Type, depth int) []string {
 		out = append(out, fmt.Sprintf("(and (<= 0 (base %s)) (< (base %s) nextRef0) (<= 0 (off %s)) (<= 0 (len %s)) (<= (len %s) (cap %s)) (=> (= (base %s) 0) (= (cap %s) 0)) (= (off %s) 0))", term, term, term, term, term, term, term, term, term))
 	case *types.Pointer:
 		out = append(out, fmt.Sprintf("(and (<= 0 %s) (< %s nextRef0))", term, term))
+	case *types.Basic:
+		if u.Info()&types.IsUnsigned != 0 && e.sorts.SortOf(t) == "Int" {
+			out = append(out, fmt.Sprintf("(<= 0 %s)", term))
+		}
 	case *types.Struct:
 		if n, ok := t.(*types.Named); ok && e.sorts.opaque(n, u) {
 			return nil
@@ -1032,8 +1053,19 @@ func (e *Exec) modifiedHeaps(h *ssa.BasicBlock) []string {
 		for _, ins := range b.Instrs {
 			switch x := ins.(type) {
 			case *ssa.Store:
-				pt := x.Addr.Type().Underlying().(*types.Pointer)
-				_ = pt
+				if ia, ok := x.Addr.(*ssa.IndexAddr); ok { // element of a private literal/varargs array: not a heap write
+					if al, ok := ia.X.(*ssa.Alloc); ok && (al.Comment == "varargs" || al.Comment == "slicelit") && onlyLiteralUses(al) {
+						continue
+					}
+				}
+				if al, ok := x.Addr.(*ssa.Alloc); ok && !al.Heap && nonEscaping(al) {
+					continue // local struct variable kept as a value term
+				}
+				if fa, ok := x.Addr.(*ssa.FieldAddr); ok {
+					if al, ok := fa.X.(*ssa.Alloc); ok && !al.Heap && nonEscaping(al) {
+						continue
+					}
+				}
 				set[e.heapOfAddr(x.Addr)] = true
 			case *ssa.MapUpdate:
 				mt := x.Map.Type().Underlying().(*types.Map)
@@ -1419,6 +1451,16 @@ func (e *Exec) instr(st *State, b *ssa.BasicBlock, ins ssa.Instruction) (stop bo
 			st.vals[x] = e.val(st, x.X)
 			return false
 		}
+		if e.sorts.SortOf(x.Type()) == "(_ BitVec 8)" && e.sorts.SortOf(x.X.Type()) == "Int" { // int -> byte: lossy unless 0..255
+			v := e.val(st, x.X)
+			e.oblige(st, "trunc", fmt.Sprintf("(and (<= 0 %s) (<= %s 255))", v, v))
+			st.vals[x] = fmt.Sprintf("((_ int2bv 8) %s)", v)
+			return false
+		}
+		if e.sorts.SortOf(x.Type()) == "Int" && e.sorts.SortOf(x.X.Type()) == "(_ BitVec 8)" { // byte -> int
+			st.vals[x] = fmt.Sprintf("(bv2nat %s)", e.val(st, x.X))
+			return false
+		}
 		panic("conversion without contract: " + key)
 	case *ssa.MakeMap:
 		mt := x.Type().Underlying().(*types.Map)
@@ -1465,6 +1507,19 @@ func (e *Exec) instr(st *State, b *ssa.BasicBlock, ins ssa.Instruction) (stop bo
 		st.boxed[bx] = &BoxInfo{Typ: x.X.Type(), Term: e.val(st, x.X)}
 		if _, isPtr := x.X.Type().Underlying().(*types.Pointer); isPtr {
 			st.assume = append(st.assume, fmt.Sprintf("(= (unboxRef %s) %s)", bx, e.val(st, x.X)))
+		}
+		if e.cs != nil {
+			for _, bf := range e.cs.BoxFacts[x.X.Type().String()] {
+				c := e.newCtx(st)
+				c.fn = nil
+				c.vars["box"] = CVal{T: bx, Sort: "Any"}
+				c.vars["val"] = c.val(e.val(st, x.X), x.X.Type())
+				if t, ok := e.safeCompile(c, bf, "boxfact "+x.X.Type().String()); ok {
+					st.assume = append(st.assume, t)
+					e.applied["boxfact "+x.X.Type().String()]++
+					e.extraUses = append(e.extraUses, bf.Uses...)
+				}
+			}
 		}
 		if e.sorts.SortOf(x.X.Type()) == "String" { // a boxed string can be read back through strOf
 			e.declOnce("(declare-fun strOf (Any) String)")
@@ -1525,6 +1580,20 @@ func (e *Exec) instr(st *State, b *ssa.BasicBlock, ins ssa.Instruction) (stop bo
 		}
 	case *ssa.Defer, *ssa.RunDefers:
 		return false
+	case *ssa.MakeClosure:
+		f := e.fresh("closure", "Fn")
+		st.assume = append(st.assume, fmt.Sprintf("(not (= %s nilFn))", f))
+		ci := &ClosureInfo{Fn: x.Fn.(*ssa.Function)}
+		for _, b := range x.Bindings {
+			ci.Bindings = append(ci.Bindings, e.val(st, b))
+			ci.Types = append(ci.Types, b.Type())
+		}
+		if st.closures == nil {
+			st.closures = map[string]*ClosureInfo{}
+		}
+		st.closures[f] = ci
+		st.vals[x] = f
+		return false
 	case *ssa.Range: // the iterator of a range loop; only abstract loops may follow (Next is outside the subset)
 		st.vals[x] = "rangeiter"
 		return false
@@ -1544,6 +1613,28 @@ func (e *Exec) instr(st *State, b *ssa.BasicBlock, ins ssa.Instruction) (stop bo
 			return true
 		}
 		if c == "false" || c == "(not true)" {
+			e.block(b.Succs[1], b, st)
+			return true
+		}
+		// a branch whose condition (or its negation) is literally among the path's assumptions is decided
+		neg := fmt.Sprintf("(not %s)", c)
+		if strings.HasPrefix(c, "(not ") {
+			neg = strings.TrimSuffix(strings.TrimPrefix(c, "(not "), ")")
+		}
+		knownTrue, knownFalse := false, false
+		for _, a := range st.assume {
+			if a == c {
+				knownTrue = true
+			}
+			if a == neg || a == fmt.Sprintf("(not %s)", c) {
+				knownFalse = true
+			}
+		}
+		if knownTrue && !knownFalse {
+			e.block(b.Succs[0], b, st)
+			return true
+		}
+		if knownFalse && !knownTrue {
 			e.block(b.Succs[1], b, st)
 			return true
 		}
@@ -1707,7 +1798,11 @@ func (e *Exec) call(st *State, c *ssa.Call) string {
 			if m := e.fn.Prog.LookupMethod(bi.Typ, c.Call.Method.Pkg(), c.Call.Method.Name()); m != nil {
 				if e.cs != nil {
 					if fc, ok := e.cs.Funcs[m.String()]; ok {
-						return e.applyContract(st, c, fc, append([]string{bi.Term}, args...))
+						e.applied[m.String()]++
+						e.staticRecv = bi.Typ
+						r := e.applyContract(st, c, fc, append([]string{bi.Term}, args...))
+						e.staticRecv = nil
+						return r
 					}
 				}
 				if h, ok := e.externs[m.String()]; ok {
@@ -2156,6 +2251,11 @@ func (e *Exec) applyContract(st *State, call *ssa.Call, fc *FuncContract, args [
 	if f := call.Call.StaticCallee(); f != nil && f.Pkg != nil {
 		c.pkg = f.Pkg.Pkg
 	}
+	if c.pkg == nil && fc.Pkg != "" {
+		if p := e.prog.Package(fc.Pkg); p != nil {
+			c.pkg = p.Pkg
+		}
+	}
 	params := fc.Params
 	if len(params) == 0 && !fc.Trusted {
 		if f := e.prog.Func(fc.Name); f != nil {
@@ -2166,7 +2266,11 @@ func (e *Exec) applyContract(st *State, call *ssa.Call, fc *FuncContract, args [
 	}
 	var ptys []types.Type
 	if call.Call.IsInvoke() {
-		ptys = append(ptys, call.Call.Value.Type())
+		if e.staticRecv != nil { // interface call dispatched statically: the receiver is the unboxed concrete value
+			ptys = append(ptys, e.staticRecv)
+		} else {
+			ptys = append(ptys, call.Call.Value.Type())
+		}
 	}
 	sig := call.Call.Signature()
 	if !call.Call.IsInvoke() && sig.Recv() != nil && len(args) == sig.Params().Len()+1 {
